@@ -125,6 +125,13 @@ func (r *canRun) frame(fr []byte, createsState bool, src, dst net.IP, sp, dp uin
 	var tcb = r.lab.c.VerifLookup(src, dst, sp, dp)
 	if createsState && tcb != nil {
 		iss, id = tcb.ISS, tcb.ID-1
+		// the values drawn for the state this frame created are those of the SYN-ACK it sent: a second SYN for a
+		// tuple that already has a state creates another one, and the lookup above returns the older
+		for _, t := range txs {
+			if t.ok && t.flags&0x12 == 0x12 && len(t.raw) >= 6 {
+				iss, id = t.seq-1, uint32(t.raw[4])<<8|uint32(t.raw[5]) // the SYN-ACK carries ISS+1
+			}
+		}
 	}
 	r.ops = append(r.ops, fmt.Sprintf("f:%s:0:%d:%d", hx(fr), iss, id))
 	out := class
